@@ -36,7 +36,9 @@ pub fn run(thorough: bool) -> Vec<Part> {
     if small_build() {
         let mut part = Part::new("C13", "expect-alphabet-s", "model_checking");
         part.assume("S-build: BUFFER_SIZE = 32, payload limit 40; all sequences over an alphabet of request lines (both versions), Expect variants (name case, padding, unsupported values, duplicates by repetition), Content-Length in {absent,0,1,(3),40,41}, bodies x all read sizes; after every try_read the output drained from the connection must be exactly the 100-Continue responses the reference predicts for the header blocks completed by the bytes consumed so far");
-        let cfg = Cfg::base("C13", "expect-alphabet", alphabet(thorough), 40);
+        let mut cfg = Cfg::base("C13", "expect-alphabet", alphabet(thorough), 40);
+        cfg.allow_defer = true;
+        cfg.empty_reads = false;
         let limits = Limits { max_states: 6_000_000, max_secs: if thorough { 3000.0 } else { 120.0 }, ..Default::default() };
         let st = bfs(&cfg, &limits, workers());
         record(&mut part, "expect-alphabet", &st);
@@ -45,6 +47,35 @@ pub fn run(thorough: bool) -> Vec<Part> {
         }
         parts.push(part);
     } else {
+        // R-build: several Expect requests in one buffer (not possible with the 32-byte buffer),
+        // heavily padded header names; all segmentations, with and without the application
+        // writing between reads
+        let mut part = Part::new("C13", "expect-streams-r", "model_checking");
+        part.assume("R-build (1024-byte buffer): streams with two pipelined Expect requests of the same and of different versions, Expect with zero / over-limit length, Expect names padded with up to 24 spaces or tabs; every segmentation into reads x the application writing after each read or only after a later one");
+        let ex = |ver: &str, name: &str, n: usize, body: &str| format!("PUT /e HTTP/{}\r\n{}: 100-continue\r\nContent-Length: {}\r\n\r\n{}", ver, name, n, body);
+        let streams: Vec<(String, String)> = vec![
+            ("two expects same version".into(), format!("{}{}GET /t HTTP/1.1\r\n\r\n", ex("1.1", "Expect", 3, "abc"), ex("1.1", "Expect", 2, "xy"))),
+            ("two expects mixed versions".into(), format!("{}{}", ex("1.0", "Expect", 1, "a"), ex("1.1", "expect", 1, "b"))),
+            ("expect zero length then expect".into(), format!("{}{}", ex("1.1", "Expect", 0, ""), ex("1.1", "Expect", 4, "body"))),
+            ("name padded with 12 spaces".into(), ex("1.1", "Expect            ", 2, "ok")),
+            ("name padded left and right with tabs/spaces (24)".into(), ex("1.1", "\t    \t      Expect \t          ", 2, "ok")),
+            ("three expects".into(), format!("{}{}{}", ex("1.1", "Expect", 1, "a"), ex("1.1", "Expect", 1, "b"), ex("1.1", "Expect", 1, "c"))),
+        ];
+        for (name, st) in streams {
+            if !thorough && name.starts_with("three") {
+                continue;
+            }
+            let mut cfg = Cfg::base("C13", &name, vec![], 51200);
+            cfg.stream = Some(st.into_bytes());
+            cfg.empty_reads = false;
+            cfg.allow_defer = true;
+            let stt = bfs(&cfg, &Limits { max_states: 3_000_000, max_secs: 600.0, ..Default::default() }, workers());
+            record(&mut part, &name, &stt);
+            for (v, _) in &stt.violations {
+                part.violations.push(v.clone());
+            }
+        }
+        parts.push(part);
         parts.push(crate::props::srv::c13_server(thorough));
     }
     parts
